@@ -269,6 +269,9 @@ def oracle(ctx, extra):
             doc = gen_docs.showcase(r) if r.random() < 0.6 else gen_docs.special_slots(r)
             if directives and r.random() < 0.3:
                 doc = gen_docs.directive_doc(r, "fenced" if r.random() < 0.5 else "rst")
+        elif k < 0.4 and directives:
+            # directives of every type with options of every name and value (numbers followed by markup among them)
+            doc = gen_docs.directive_doc(r, "fenced", gen_docs.MARKUP_NUMBERS if r.random() < 0.5 else None)   # (the one configuration with directives is the fenced one)
         elif k < 0.6:
             doc = gen_docs.doc(r, plugins=names, directives=directives)
         elif k < 0.75:
